@@ -284,14 +284,14 @@ package dynamicresources
 //@     invariant rangeindex == 0 - 1 ==> draFaults() == old(draFaults()) && (forall k string :: tracked(k) == old(tracked(k)))
 //@     invariant event.Task.ResourceClaimInfo == old(event.Task.ResourceClaimInfo)
 //@     invariant forall m map[string]*schedulingv1alpha2.ResourceClaimAllocation, n string :: old(allocated(m)) ==> (n in m) == old(n in m) && m[n] == old(m[n])
-//@     invariant forall a *schedulingv1alpha2.ResourceClaimAllocation :: old(allocated(a)) && a.Allocation != old(a.Allocation) ==> (exists n string :: (n in event.Task.ResourceClaimInfo) && event.Task.ResourceClaimInfo[n] == a)
+//@     invariant forall a *schedulingv1alpha2.ResourceClaimAllocation :: a != nil && old(allocated(a)) && a.Allocation != old(a.Allocation) ==> (exists n string :: (n in event.Task.ResourceClaimInfo) && event.Task.ResourceClaimInfo[n] == a)
 //@     invariant draFaults() == old(draFaults()) ==> (forall j int :: 0 <= j && j <= rangeindex && rcDirectAt(event.Task.Pod, j) ==> releasedNow(tracked(draKey(event.Task.Namespace, *event.Task.Pod.Spec.ResourceClaims[j].ResourceClaimName)), event.Task.Pod))
 //@     invariant forall k string :: tracked(k) != old(tracked(k)) ==> releasedNow(tracked(k), event.Task.Pod)
 //@     decreases len(event.Task.Pod.Spec.ResourceClaims) - rangeindex
 //@   ensures [faultsOnlyGrow] draFaults() >= old(draFaults())
 //@   ensures [everyDirectlyNamedClaimReleased] draFaults() == old(draFaults()) ==> (forall j int :: 0 <= j && j < len(event.Task.Pod.Spec.ResourceClaims) && rcDirectAt(event.Task.Pod, j) ==> releasedNow(tracked(draKey(event.Task.Namespace, *event.Task.Pod.Spec.ResourceClaims[j].ResourceClaimName)), event.Task.Pod))
 //@   ensures [touchedClaimsEndWithoutThePod] forall k string :: tracked(k) != old(tracked(k)) ==> releasedNow(tracked(k), event.Task.Pod)
-//@   ensures [onlyThisTasksEntriesRewritten] forall a *schedulingv1alpha2.ResourceClaimAllocation :: old(allocated(a)) && a.Allocation != old(a.Allocation) ==> (exists n string :: (n in event.Task.ResourceClaimInfo) && event.Task.ResourceClaimInfo[n] == a)
+//@   ensures [onlyThisTasksEntriesRewritten] forall a *schedulingv1alpha2.ResourceClaimAllocation :: a != nil && old(allocated(a)) && a.Allocation != old(a.Allocation) ==> (exists n string :: (n in event.Task.ResourceClaimInfo) && event.Task.ResourceClaimInfo[n] == a)
 //@   ensures [noEntryAddedOrDeleted] event.Task.ResourceClaimInfo == old(event.Task.ResourceClaimInfo) && (forall n string :: (n in event.Task.ResourceClaimInfo) == old(n in event.Task.ResourceClaimInfo) && event.Task.ResourceClaimInfo[n] == old(event.Task.ResourceClaimInfo[n]))
 //@   ensures [noClaimsNoEffect] len(event.Task.Pod.Spec.ResourceClaims) == 0 ==> draFaults() == old(draFaults()) && (forall k string :: tracked(k) == old(tracked(k)))
 //@ end
